@@ -77,6 +77,11 @@ def generate(seed, tier, index):
             if st_["op"] == "burst":
                 st_["blob_at"] = [i for i in range(st_["n"]) if rng.random() < 0.4]  # which updates of the burst are BLOB updates
     tty = rng.random() < 0.6
+    if tty and rng.random() < 0.3:
+        # the TTY peer's input ends right behind one of the bursts, while that burst's writes and flushes are still under way:
+        # what was routed to the channel before its end must still come out whole
+        bursts = [s_ for s_ in steps if s_["op"] == "burst"]
+        rng.choice(bursts)["tty_eof_after"] = True
     targets = [f"tcp{i}" for i in range(ntcp)] + (["tty"] if tty else [])
     stall = rng.choice([None, None] + targets)
     if big:
@@ -167,6 +172,7 @@ def execute_server(scen, sim, viol, probes, facts):
             probes["stalled_connection"] = 1
         counter = [0]
         big = 0
+        tty_eof = [False]
 
         def one_update(big_len=0, blob=False):
             counter[0] += 1
@@ -202,6 +208,10 @@ def execute_server(scen, sim, viol, probes, facts):
                     sim.loop.step_iterations(st.get("between", 1))
             if st["n"] >= 2:
                 big += 1
+            if st.get("tty_eof_after") and scen["tty"] and not tty_eof[0]:
+                stack.stdin_file.feed_eof()
+                tty_eof[0] = True
+                probes["tty_input_ended_while_output_was_under_way"] = 1
         # progress: run to quiescence (a connection stalled for ever holds no timer, so quiescence is still reached);
         # everything not stalled must then be complete
         sim.settle()
@@ -223,7 +233,7 @@ def execute_server(scen, sim, viol, probes, facts):
             _check_output(nm, p.text, r, stall == nm, viol, dict(facts, channel="tcp"))
         if scen["tty"] and not viol:
             r = routed.get("tty", [])
-            if len(r) != total_routed - probes.get("blob_update_in_burst", 0):
+            if len(r) != total_routed - probes.get("blob_update_in_burst", 0) and not tty_eof[0]:
                 viol.append({"clause": "C19.isolated", "detail": f"tty: only {len(r)} of {total_routed} updates were routed to this connection", "facts": facts})
             else:
                 # (the flushed part: what is written but still sits in the stream buffer has not reached the reader)
